@@ -141,6 +141,8 @@ class Run:
         self.B = specs.Builder(self.w)
         self.disk = seams.SimDisk()
         self.live = self.B.obj(plan["target"])
+        self.live_grid = plan["home"] if plan.get("own_grid") else None   # grid id the live portfolio holds
+        self.pgrid = {g: p for g, p in plan["probes"]}
         self.text = None           # last string form
         self.text_snap = None
         self.acked_snap = None     # reference for the last acknowledged file save
@@ -250,8 +252,9 @@ class Run:
             d = cmp_outcomes(o1, o2)
             if d:
                 return ("R1-problem-differs", "probe grid %s: %s" % (g, d[0]), d[1])
-        if self.plan.get("own_grid") and hasattr(ref, "timegrid"):
-            g, p = self.plan["probes"][0]
+        g = getattr(ref, "_verif_grid_id", None)
+        if g is not None and hasattr(ref, "timegrid") and hasattr(ref, "assets"):
+            p = self.pgrid[g]
             tw = specs.Builder(self.w)
             x, y = copy.deepcopy(ref), copy.deepcopy(loaded)
             o1 = outcome(lambda: x.setup_optim_problem(tw.prices(p)))
@@ -275,11 +278,13 @@ class Run:
             out = "ok"
             try:
                 if st["call"] == "setup":
+                    self.live_grid = st["grid"]
                     _setup(self.live, self.B.prices(st["prices"]), self.B.grid(st["grid"]))
                     self.did_setup = True
                     if self.w["grids"][st["grid"]]["tz"] is not None:
                         self.did_setup_aware = True
                 elif st["call"] == "set_timegrid":
+                    self.live_grid = st["grid"]
                     self.live.set_timegrid(self.B.grid(st["grid"]))
                 else:
                     eao.serialization.to_json(self.live)
@@ -293,6 +298,8 @@ class Run:
             self.stats["saves"] += 1
             self.note_save_probes()
             snap = copy.deepcopy(self.live)
+            if hasattr(snap, "assets"):
+                snap._verif_grid_id = self.live_grid  # oracle's note (Portfolio serialisation ignores unknown attributes)
             if st["path"] == "string":
                 try:
                     self.text = eao.serialization.to_json(self.live)
@@ -379,6 +386,7 @@ class Run:
             self.events.append((i, "load:string", "ok"))
             if self.compare(i, loaded, [self.text_snap], "string"):
                 self.live = loaded
+                self.live_grid = getattr(self.text_snap, "_verif_grid_id", None)
                 self.stats["generations"] += 1
                 self.cover(st, "acked")
             return
@@ -400,12 +408,17 @@ class Run:
             faults = [("read", "short_read@%d" % k)]
         exc = None
         loaded = None
+        ran = False
         with self.disk.mounted(faults) as d:
             try:
-                if path == "run_from_json":
-                    g, p = self.plan["probes"][0]
+                if path == "run_from_json" and getattr(refs[0] if refs else None, "_verif_grid_id", None) is not None:
+                    rg = refs[0]._verif_grid_id
                     loaded = eao.serialization.load_from_json(file_name="obj.json")
-                    out = eao.serialization.run_from_json(file_name_in="obj.json", prices=self.B.prices(p))
+                    try:
+                        out = eao.serialization.run_from_json(file_name_in="obj.json", prices=self.B.prices(self.pgrid[rg]))
+                    except Exception as e2:
+                        out = ("raise", type(e2).__name__)
+                    ran = True
                 else:
                     loaded = eao.serialization.load_from_json(file_name="obj.json")
             except Exception as e:
@@ -426,25 +439,31 @@ class Run:
         if not refs:
             return
         if self.compare(i, loaded, refs, path + ("" if acked else ":unacked")):
-            if path == "run_from_json" and acked and f is None:
+            if ran and acked and f is None:
                 # R4: what could be optimised before saving can be optimised after loading, with the same value
                 ref = copy.deepcopy(refs[0])
-                g, p = self.plan["probes"][0]
+                p = self.pgrid[refs[0]._verif_grid_id]
                 tw = specs.Builder(self.w)
                 try:
                     opr = ref.setup_optim_problem(tw.prices(p))
                     rr = opr.optimize()
                     v_ref = None if isinstance(rr, str) else float(rr.value)
-                except Exception:
-                    v_ref = "raise"
+                except Exception as e3:
+                    v_ref = ("raise", type(e3).__name__)
                 v_new = None
-                if isinstance(out, dict) and out.get("summary") is not None and hasattr(out["summary"], "loc"):
+                if isinstance(out, tuple) or isinstance(v_ref, tuple):
+                    self.stats["r4_checked"] += 1
+                    if isinstance(out, tuple) != isinstance(v_ref, tuple):
+                        self.viol("R4-run-from-json-value", i, "run_from_json: %r, same steps on the object before saving: %r" % (out if isinstance(out, tuple) else "works", v_ref if isinstance(v_ref, tuple) else "works"), "raises")
+                        return
+                elif isinstance(out, dict) and out.get("summary") is not None and hasattr(out["summary"], "loc"):
                     v_new = float(out["summary"].loc["value", "Values"])
-                self.stats["r4_checked"] += 1
-                if isinstance(v_ref, float) and (v_new is None or abs(v_new - v_ref) > 1e-6 * (1 + abs(v_ref))):
+                    self.stats["r4_checked"] += 1
+                if isinstance(v_ref, float) and not isinstance(out, tuple) and (v_new is None or abs(v_new - v_ref) > 1e-6 * (1 + abs(v_ref))):
                     self.viol("R4-run-from-json-value", i, "run_from_json value %r, value before saving %r" % (v_new, v_ref), "value")
                     return
             self.live = loaded
+            self.live_grid = getattr(refs[0], "_verif_grid_id", None) if acked or len(refs) == 1 else None
             self.stats["generations"] += 1
             if acked:
                 self.need_liveness = False
